@@ -32,6 +32,13 @@ T = {
  "C12": ("Static analysis of the crash/termination clauses: T-EOF abstract interpretation of the rfc5322 parser (no loop spins at end of input), and T-REC over rfc5322/rfc822/imap structure code: the comment recursion is depth-guarded, the MIME-tree recursions are bounded below the fatal stack limit by (compiler frame size) x (30 MiB literal cap / 29 bytes per nesting level). Absence of index panics, well-formedness of every produced list and equality with the MIME tree are not decided by these rules.",
          "Trusts go/ssa, compiler frame sizes, the 29-bytes-per-level justification printed in evidence.",
          "abstract interpretation at EOF + call-graph SCC stack-bound analysis", "DESIGN.md 4/C12"),
+
+ "C01": ("Static analysis of the structural half of 'announced view = answering view': who-may-write rules on every field of the per-session snapshot and who-may-call rules on its mutators (only the three responders), in-place flag changes are announced in the same response, each Responder.handle returns a response from the matching constructor on every mutating path except the three enumerated silencers, every produced response is forwarded (flushResponses/PushResponder/flush), every selected-state command is followed by a flush before its tagged response, FlagSets stored in a snapshot are private copies (no aliasing between messages/sessions), and no deferred call captures a stale response buffer. The list mutators' own arithmetic (sorted msg, idx consistency), response.Merge and sequence-number values are trusted, not decided.",
+         "Trusts go/ssa, the VTA call graph, the bodies of snapMsgList.insert/insertOutOfOrder/remove and response.Merge.",
+         "who-may-write / who-may-call rules + must-pass-through on SSA + value-origin (ownership) analysis", "DESIGN.md 4/C01"),
+ "C02": ("Static analysis of necessary conditions of convergence: no returned state update is dropped, the four commit wrappers broadcast the closure's updates on every success path, no Update.Filter decides on snapshot membership without also consulting pending (queued) additions, the update queue is accessed under its lock and is FIFO by construction, the strict ascending insert is used only for the originating state, snapshot flag sets are private copies. Equality of the converged view with the authoritative mailbox for every history is not decided.",
+         "Trusts go/ssa, the lock-region analysis (must-hold dataflow per function), VTA call graph.",
+         "T-NODROP use analysis + must-pass-through + lock-region (must-hold) dataflow + structural filter rule", "DESIGN.md 4/C02"),
 }
 NA_REASON = {}
 checks = []
